@@ -90,6 +90,9 @@ type Specs struct {
 	GhostFields map[string]string // name -> sort
 }
 
+// strictGhost: ghost arrays that change only through declared ghostset/modifies clauses
+var strictGhost = map[string]bool{}
+
 var specs = &Specs{Funcs: map[string]*FuncSpec{}, Loops: map[string]*LoopSpec{}, Macros: map[string]*Macro{}, Ghosts: map[string]*GhostFn{}, Ifaces: map[string]*FuncSpec{}, GhostFields: map[string]string{}}
 
 func loadSpecFile(path string, required bool) {
@@ -244,12 +247,15 @@ func loadSpecFile(path string, required bool) {
 					sweepSet[n] = true
 				}
 			}
-		case "ghostfield":
+		case "ghostfield", "ghoststate":
 			parts := strings.Fields(rest)
 			if len(parts) != 2 {
-				fatal("%s: ghostfield <name> <Sort>", where)
+				fatal("%s: %s <name> <Sort>", where, kw)
 			}
 			specs.GhostFields[parts[0]] = parts[1]
+			if kw == "ghoststate" {
+				strictGhost["G$"+parts[0]] = true
+			}
 		case "lemma", "axiom":
 			labels, src := splitLabels(rest)
 			l := &Lemma{Labels: labels, E: parseCExpr(src, where), Src: src, Where: where}
